@@ -51,7 +51,13 @@ const SoloDesigns = 12
 func GenerateSolo(r *lp.Rng, index int) *Design {
 	d := &Design{API: "solo" + fmt.Sprint(index)}
 	s := &Service{Name: "one"}
-	d.Services = append(d.Services, s)
+	// two services with a method of the same name whose bodies differ (their body types want the same name in the documents);
+	// the first of them is the first thing of the design and has nothing but that one body
+	same := func(svc, attr, prim string) *Service {
+		return &Service{Name: svc, Methods: []*Method{{Name: "add", HTTP: &HTTPMap{Verb: "POST", Path: "/" + svc + "/add"},
+			Payload: &Att{Type: &Type{IsObject: true, Object: []*Field{{Name: attr, Att: &Att{Type: &Type{Prim: prim}}}}}, Required: []string{attr}}}}}
+	}
+	d.Services = append(d.Services, same("alpha", "name", "String"), s, same("beta", "count", "Int"))
 	for k, c := range soloCells() {
 		if k%SoloDesigns != index%SoloDesigns {
 			continue
@@ -229,6 +235,22 @@ func GenerateMultipart(r *lp.Rng, index int) *Design {
 		d.Services = append(d.Services, &Service{Name: "down", Methods: []*Method{{Name: "send", Multipart: true,
 			Payload: &Att{Type: &Type{IsObject: true, Object: []*Field{{Name: "file", Att: &Att{Type: &Type{Prim: "Bytes"}}}}}, Required: []string{"file"}},
 			HTTP:    &HTTPMap{Verb: "POST", Path: "/send"}}}})
+	}
+	_ = r
+	return d
+}
+
+// GenerateTwin builds the smallest design in which two body types want one name in the documents: two services, each with nothing
+// but a method `add` whose body differs from the other's (index: which attribute kinds; odd indices add a third service).
+func GenerateTwin(r *lp.Rng, index int) *Design {
+	d := &Design{API: "twin" + fmt.Sprint(index)}
+	same := func(svc, attr, prim string, v *Validation) *Service {
+		return &Service{Name: svc, Methods: []*Method{{Name: "add", HTTP: &HTTPMap{Verb: "POST", Path: "/" + svc},
+			Payload: &Att{Type: &Type{IsObject: true, Object: []*Field{{Name: attr, Att: &Att{Type: &Type{Prim: prim}, Val: v}}}}, Required: []string{attr}}}}}
+	}
+	d.Services = append(d.Services, same("alpha", "name", "String", &Validation{MaxLen: ip(8)}), same("beta", "count", "Int", &Validation{Min: fp(1)}))
+	if index%2 == 1 {
+		d.Services = append(d.Services, same("gamma", "flag", "Boolean", nil))
 	}
 	_ = r
 	return d
